@@ -243,6 +243,10 @@ package tree
 //@ fn Tree.Remove
 //@   requires treeOK(tree) && allSafe() && sepOK() && lockFree(tree)
 //@   ensures [C03,C05] safe: allSafe() && sepOK()
+//@   ensures [C04,C03] mask-recomputed: callresult("tree.Tree.Find", 1, 0) != nil ==> called("tree.node.buildMethods", 1) && called("tree.Tree.rebuildMethods", 1)
+//@   atcall tree.node.buildMethods [C04,C03] the-found-node: arg0 == callresult("tree.Tree.Find", 1, 0)
+//@   cut tree.node.buildMethods 1 [C04,C03] mask-is-current: callresult("tree.Tree.Find", 1, 0).methodIndex == maskOf(dom(callresult("tree.Tree.Find", 1, 0).handlers)) +
+//@        ((tree.hasTrace && len(callresult("tree.Tree.Find", 1, 0).handlers) > 0) ? 64 : 0)
 //@   cut tree.node.buildMethods 1 [C08,C05] auto-entries-complete: len(callresult("tree.Tree.Find", 1, 0).handlers) > 0 ==>
 //@        in("", callresult("tree.Tree.Find", 1, 0).handlers) && in("OPTIONS", callresult("tree.Tree.Find", 1, 0).handlers)
 //@   cut tree.node.buildMethods 1 [C08] auto-entries-last-to-go: len(callresult("tree.Tree.Find", 1, 0).handlers) == 0 ||
